@@ -139,6 +139,31 @@ def run(ctx: Ctx) -> None:
                 if err is not None or any(not near(b2f(m), float(v)) for m, v in zip(r["ok"], res)):
                     ctx.disagree("apply_constraint", key, [b2f(m) for m in r["ok"]], err or list(res), THMS)
 
+    # ---- (b2) an unknown constraint name is rejected by every operation, whatever its other options (also where the
+    #      operation's unconstrained scales happen to coincide, e.g. softmax with mult = 1)
+    for op in CONSTRAINED:
+        for rep_ in range(3 if quick else 20):
+            case = ops.gen_case(rng, op)
+            if op == "add" and case.cfg.get("mode") == "number":
+                continue
+            for force_mult in ((1.0, None) if "mult" in case.cfg else (None,)):
+                cfg_ = {**case.cfg, "constraint": "to_outptu_scale"}
+                if force_mult is not None:
+                    cfg_["mult"] = force_mult
+                bad = ops.OpCase(op, cfg_, case.shapes, case.diff)
+                key = {**bad.key(), "unknown_constraint": True}
+                ctx.count(key, bucket="unknown-name/op")
+                err = None
+                try:
+                    ops.call_impl(U, bad, ops.make_inputs(bad, 3), 5)
+                except ValueError:
+                    err = "ValueError"
+                except Exception as e:  # noqa: BLE001
+                    err = type(e).__name__
+                if err != "ValueError":
+                    ctx.violation(f"C05:{op}:unknown-name", "an unknown constraint name is not rejected with ValueError", key,
+                                  err or "call succeeded")
+
     # ---- (c) operations
     per = 6 if quick else 120
     mreqs, mcases = [], []
@@ -234,6 +259,21 @@ def run(ctx: Ctx) -> None:
                 n_gc += 1
                 if not ok:
                     ctx.violation(f"C05:{op}:{cname}:finite-differences", "constrained input gradients disagree with finite differences", key)
+                # the same with only ONE constrained input requiring grad (a frozen operand / plain data on the other side)
+                if ok and len(cn) > 1:
+                    for solo in cn:
+                        t1 = {k_: (v_.detach().clone().requires_grad_(k_ == solo) if torch.is_tensor(v_) and v_.is_floating_point() else v_)
+                              for k_, v_ in t.items()}
+
+                        def f1(x, solo=solo, t1=t1):
+                            tt = dict(t1)
+                            tt[solo] = x
+                            return ops.call_impl(U, case, tt, 5)
+
+                        n_gc += 1
+                        if not gradcheck(f1, (t1[solo],), eps=1e-6, atol=1e-5, rtol=1e-4, raise_exception=False):
+                            ctx.violation(f"C05:{op}:{cname}:finite-differences:solo", "with only one operand requiring grad, its "
+                                          "gradient disagrees with finite differences", {**key, "requires_grad": solo})
     # the fixed-constraint residual ops: the gradient at x is the true derivative of what is computed, for tau != 1 too,
     # through residual_apply (tau by position and by keyword) and through split / f / add
     for ri in range(6 if quick else 60):
